@@ -99,6 +99,28 @@ pub fn run(c: &C02Case) -> Outcome {
 				return o;
 			}
 		}
+		// bounded delay, measured in work (schedule-independent): once the window — started when the
+		// filter passed the batch's first member — has ended (+20 ms), the worker must hand the batch
+		// over instead of consuming further rejected / erroring events; the unchanged worker takes at
+		// most one more
+		if !has_urgent && sc.throttle_change.is_none() {
+			if let Some(&(_, started)) = r.asked_at.iter().find(|(id, _)| *id == first.id) {
+				let end = started + tmax * 1000 + 20_000;
+				let late: Vec<u32> = r
+					.asked_at
+					.iter()
+					.filter(|(id, at)| *at > end && *at < b.entry_us && by_id(*id).map_or(false, |s| s.verdict != 0))
+					.map(|(id, _)| *id)
+					.collect();
+				if late.len() >= 4 {
+					o.fail(
+						"starved-by-rejected-events",
+						format!("batch {bi}: after its window had ended the worker consumed {} more rejected/erroring events ({late:?}) before handing it over{}", late.len(), dump()),
+					);
+					return o;
+				}
+			}
+		}
 		// (b) one batch per window
 		let t = u64::from(sc.throttle);
 		if !has_urgent && sc.throttle_change.is_none() && t >= 100 && sc.handler_ms == 0 && r.sent.len() <= 16 {
@@ -209,6 +231,227 @@ fn strategy() -> BoxedStrategy<C02Case> {
 	.boxed()
 }
 
+// ---------------------------------------------------------------------------------------------
+// Saturating flood of rejected events from other threads
+
+#[derive(Clone, Debug, Serialize, Deserialize)]
+pub struct FloodCase {
+	pub throttle: u16,
+	pub flooders: u8,
+	/// the flood starts this long before (negative: after) the accepted event is sent
+	pub lead_ms: i16,
+	/// event queue capacity
+	pub chan: u16,
+	/// number of accepted events sent close together at the start of the window
+	pub accepted: u8,
+}
+
+const FLOOD_ID: u32 = 0x00f1_00d0;
+const FLOOD_SLACK_MS: u64 = 600; // only sizes the flood duration
+
+/// The filter doubles as the observer: it notes when the worker took the first accepted event (that is
+/// when the window starts) and counts the rejected events the worker consumed after the window had
+/// ended (plus 20 ms) while the batch was still undelivered. The unchanged worker consumes at most one.
+#[derive(Debug)]
+struct FloodFilter(std::sync::Arc<FloodState>);
+#[derive(Debug)]
+struct FloodState {
+	t0: std::time::Instant,
+	throttle_us: u64,
+	acc_seen_us: std::sync::atomic::AtomicU64,
+	delivered: std::sync::atomic::AtomicBool,
+	late_asked: std::sync::atomic::AtomicU64,
+}
+impl watchexec::filter::Filterer for FloodFilter {
+	fn check_event(&self, event: &watchexec_events::Event, _p: watchexec_events::Priority) -> Result<bool, watchexec::error::RuntimeError> {
+		use std::sync::atomic::Ordering::SeqCst;
+		let st = &self.0;
+		let now = st.t0.elapsed().as_micros() as u64 + 1;
+		if crate::wxrun::id_of(event) != Some(FLOOD_ID) {
+			let _ = st.acc_seen_us.compare_exchange(0, now, SeqCst, SeqCst);
+			return Ok(true);
+		}
+		let seen = st.acc_seen_us.load(SeqCst);
+		if seen != 0 && now > seen + st.throttle_us + 20_000 && !st.delivered.load(SeqCst) {
+			st.late_asked.fetch_add(1, SeqCst);
+		}
+		Ok(false)
+	}
+}
+
+pub fn run_flood(c: &FloodCase) -> Outcome {
+	use std::sync::{
+		atomic::{AtomicBool, AtomicU64, Ordering},
+		Arc, Mutex,
+	};
+	use std::time::{Duration, Instant};
+	use watchexec_events::Priority;
+	let mut o = Outcome::pass();
+	let t = u64::from(c.throttle);
+	// the flood goes on for this long after the accepted event: well past window + slack
+	let flood_after = t + FLOOD_SLACK_MS + 700;
+	let rt = tokio::runtime::Builder::new_multi_thread().worker_threads(4).enable_all().build().unwrap();
+	struct Obs {
+		sent_before_us: u64,
+		sent_after_us: u64,
+		entries: Vec<(u64, Vec<Option<u32>>)>,
+		flood_sent: u64,
+		flood_end_us: u64,
+		main: String,
+		late_asked: u64,
+		acc_seen_us: u64,
+	}
+	let obs: Obs = rt.block_on(async {
+		let t0 = Instant::now();
+		let us = move || t0.elapsed().as_micros() as u64;
+		let mut config = watchexec::Config::default();
+		config.event_channel_size = usize::from(c.chan.max(1));
+		config.throttle(Duration::from_millis(t));
+		let st = Arc::new(FloodState {
+			t0,
+			throttle_us: t * 1000,
+			acc_seen_us: AtomicU64::new(0),
+			delivered: AtomicBool::new(false),
+			late_asked: AtomicU64::new(0),
+		});
+		config.filterer(FloodFilter(st.clone()));
+		let entries: Arc<Mutex<Vec<(u64, Vec<Option<u32>>)>>> = Arc::new(Mutex::new(Vec::new()));
+		{
+			let entries = entries.clone();
+			let st2 = st.clone();
+			config.on_action(move |mut action| {
+				let ids: Vec<Option<u32>> = action.events.iter().map(crate::wxrun::id_of).collect();
+				let quit = ids.contains(&Some(QUIT_ID));
+				if ids.contains(&Some(0)) {
+					st2.delivered.store(true, Ordering::SeqCst);
+				}
+				entries.lock().unwrap().push((us(), ids));
+				if quit {
+					action.quit();
+				}
+				action
+			});
+		}
+		let wx = Arc::new(watchexec::Watchexec::with_config(config).expect("with_config"));
+		let mut main = wx.main();
+		let stop = Arc::new(AtomicBool::new(false));
+		let flood_sent = Arc::new(AtomicU64::new(0));
+		let start_flood = |wx: Arc<watchexec::Watchexec>| {
+			let mut hs = Vec::new();
+			for _ in 0..c.flooders.clamp(1, 3) {
+				let wx = wx.clone();
+				let stop = stop.clone();
+				let flood_sent = flood_sent.clone();
+				hs.push(tokio::spawn(async move {
+					let mut n = 0u64;
+					while !stop.load(Ordering::Relaxed) {
+						if wx.send_event(crate::wxrun::make_event(FLOOD_ID, 1), Priority::Normal).await.is_err() {
+							break;
+						}
+						n += 1;
+						if n % 64 == 0 {
+							tokio::task::yield_now().await;
+						}
+					}
+					flood_sent.fetch_add(n, Ordering::SeqCst);
+				}));
+			}
+			hs
+		};
+		let mut hs = Vec::new();
+		if c.lead_ms >= 0 {
+			hs = start_flood(wx.clone());
+			tokio::time::sleep(Duration::from_millis(c.lead_ms as u64)).await;
+		}
+		let sent_before_us = us();
+		for k in 0..u32::from(c.accepted.clamp(1, 4)) {
+			let _ = wx.send_event(crate::wxrun::make_event(k, 0), Priority::Normal).await;
+		}
+		let sent_after_us = us();
+		if c.lead_ms < 0 {
+			tokio::time::sleep(Duration::from_millis(u64::from(c.lead_ms.unsigned_abs()))).await;
+			hs = start_flood(wx.clone());
+		}
+		// keep flooding until the batch has been delivered and then some, or until the budget is used up
+		let until = Instant::now() + Duration::from_millis(flood_after);
+		while Instant::now() < until {
+			tokio::time::sleep(Duration::from_millis(5)).await;
+		}
+		stop.store(true, Ordering::SeqCst);
+		let flood_end_us = us();
+		for h in hs {
+			let _ = h.await;
+		}
+		tokio::time::sleep(Duration::from_millis(2 * t + 100)).await;
+		let _ = tokio::time::timeout(Duration::from_secs(2), wx.send_event(crate::wxrun::make_event(QUIT_ID, 0), Priority::Urgent)).await;
+		let main = match tokio::time::timeout(Duration::from_secs(5), &mut main).await {
+			Err(_) => {
+				main.abort();
+				"hang".to_string()
+			}
+			Ok(Ok(Ok(()))) => "ok".to_string(),
+			Ok(other) => format!("{other:?}"),
+		};
+		let e = entries.lock().unwrap().clone();
+		Obs {
+			sent_before_us,
+			sent_after_us,
+			entries: e,
+			flood_sent: flood_sent.load(Ordering::SeqCst),
+			flood_end_us,
+			main,
+			late_asked: st.late_asked.load(Ordering::SeqCst),
+			acc_seen_us: st.acc_seen_us.load(Ordering::SeqCst),
+		}
+	});
+	rt.shutdown_timeout(std::time::Duration::from_millis(200));
+	let dump = || {
+		format!(
+			"\ncase {c:?}\naccepted events sent at {}..{} µs, first one taken by the worker at {} µs; handler entries {:?}; {} rejected events sent until {} µs, {} of them consumed by the worker later than 20 ms after the window had ended and before the batch was delivered; main: {}",
+			obs.sent_before_us, obs.sent_after_us, obs.acc_seen_us, obs.entries, obs.flood_sent, obs.flood_end_us, obs.late_asked, obs.main
+		)
+	};
+	o.nontrivial = obs.flood_sent > 1000;
+	if obs.flood_sent > 1000 {
+		o.label("flood>1000-events");
+	}
+	if obs.main != "ok" {
+		o.fail("flood:main-did-not-end-cleanly", format!("main task: {}{}", obs.main, dump()));
+		return o;
+	}
+	let first = obs.entries.iter().find(|(_, ids)| ids.contains(&Some(0)));
+	match first {
+		None => {
+			o.fail("flood:accepted-event-never-delivered", format!("no batch holds the accepted event{}", dump()));
+		}
+		Some((at, ids)) => {
+			if ids.contains(&Some(FLOOD_ID)) {
+				o.fail("flood:rejected-event-delivered", format!("a rejected event was handed to the handler{}", dump()));
+			} else if *at < obs.sent_before_us + t * 1000 {
+				o.fail("delivered-before-window-elapsed", format!("batch handed over {} µs after its first event was sent, throttle {t} ms{}", at - obs.sent_before_us, dump()));
+			} else if obs.late_asked >= 50 {
+				o.fail(
+					"starved-by-rejected-events",
+					format!("after the window had ended the worker went on consuming {} rejected events before it handed the batch over ({} µs after its first event was sent, throttle {t} ms){}", obs.late_asked, at - obs.sent_after_us, dump()),
+				);
+			}
+		}
+	}
+	o
+}
+
+fn flood_strategy() -> BoxedStrategy<FloodCase> {
+	(
+		prop_oneof![Just(0u16), Just(30), Just(100), Just(250)],
+		prop_oneof![1 => Just(1u8), 2 => Just(2), 4 => Just(3)],
+		prop_oneof![Just(-20i16), Just(0), Just(30), Just(150)],
+		prop_oneof![1 => Just(1u16), 1 => Just(16), 3 => Just(1024), 3 => Just(4096), 2 => Just(16384)],
+		1u8..4,
+	)
+		.prop_map(|(throttle, flooders, lead_ms, chan, accepted)| FloodCase { throttle, flooders, lead_ms, chan, accepted })
+		.boxed()
+}
+
 pub fn check(e: &Engine) {
 	e.assume("real time: the lower bound (never before the window elapsed) is one-sided and always asserted; upper bounds use 250 ms of slack, only in scenarios whose handler returns at once, and must reproduce 3 times to count");
 	e.assume("'one batch per window' is asserted only for T >= 100 ms, <= 16 events and a margin of max(25 ms, T/4) before the window end");
@@ -223,4 +466,19 @@ pub fn check(e: &Engine) {
 		&run,
 	);
 	e.require_label("debounce", "multi-member-batch", 0.2);
+	e.explore(
+		"rejected-flood",
+		LegOpts {
+			cases: e.tier.pick(16, 400),
+			shards: 4,
+			threads: 4,
+			confirm: 3,
+			max_shrink_iters: 8,
+			rule: "1-3 accepted events, then (or already before) 1-3 tasks on other worker threads send rejected events as fast as the queue takes them (capacity 1-16384) until well past the window: the batch must be handed over no earlier than the throttle, and 'within a bounded delay' is measured in work, not in wall-clock time, so that machine load cannot fake it: the recording filter counts the rejected events the worker consumes later than 20 ms after the window (started when the worker took the first accepted event) has ended and before the batch is delivered; the worker must not consume 50 or more (the unchanged worker consumes at most one); non-trivial = more than 1000 rejected events were sent",
+			confirm_any: &[],
+		},
+		&flood_strategy,
+		&run_flood,
+	);
+	e.require_label("rejected-flood", "flood>1000-events", 0.8);
 }
